@@ -18,7 +18,7 @@ cp "$SEED/demo_test.go" "$WT/$PLACE/zz_seeded_demo_test.go"
 ( cd "$WT/$PLACE" && go test -vet=off -count=1 -run 'TestSeededDemo$' . > "$SEED/demo_with_change.log" 2>&1 ) && fail "demo passes WITH the change"
 grep -q -- "--- FAIL: TestSeededDemo" "$SEED/demo_with_change.log" || fail "demo did not run to a test failure with the change (see demo_with_change.log)"
 rm "$WT/$PLACE/zz_seeded_demo_test.go"
-( cd "$WT" && go test -vet=off -count=1 -timeout 60m ./... > "$SEED/suite_with_change.log" 2>&1 )
+( cd "$WT" && go test -vet=off -count=1 -timeout 180m ./... > "$SEED/suite_with_change.log" 2>&1 )
 BAD=$(grep -E "^--- FAIL|^FAIL|^panic" "$SEED/suite_with_change.log" | grep -v -E "TestSbLb|TestShLh|TestSwLw|^FAIL$|^FAIL[[:space:]]+github.com/teivah/majorana/risc" | head -5)
 [ -n "$BAD" ] && fail "suite fails with the change: $(echo $BAD | tr '"' "'" | head -c 300)"
 ( cd "$WT" && git checkout -q -- . )
